@@ -397,6 +397,13 @@ def _randfilter(R, rng, ctx, i):
         pt = gen.point(rng, defn, scale=1.0)
         x = {s: pt[s] for s in defn["state"]}
         P = gen.spd(rng, len(names), rng.choice(["rand", "diag", "ident"]))
+        if len(names) >= 2 and rng.random() < 0.5:
+            # a covariance that is symmetric only up to rounding (as produced by earlier filter steps):
+            # a discard must still return it bit for bit
+            i_, j_ = rng.sample(range(len(names)), 2)
+            P = P.copy()
+            P[i_, j_] = np.nextafter(P[i_, j_], np.inf) if P[i_, j_] != 0 else 5e-324
+            R.stats.inc("rounding_asymmetric_covariances")
         for sn in sorted(defn["sensors"]):
             rds = sorted(defn["sensors"][sn])
             m = len(rds)
